@@ -34,6 +34,18 @@ mod sim;
 mod cmd_system;
 mod cmd_provider;
 mod cmd_blocks;
+mod cmd_codec;
+mod cmd_driver;
+// a second instantiation of the plugin framework's codec module, reachable from the harness
+#[path = "/repo/src/cln_plugin"]
+mod codec_probe {
+    #[path = "codec.rs"]
+    pub mod codec;
+    #[path = "messages.rs"]
+    pub mod messages;
+    #[path = "options.rs"]
+    pub mod options;
+}
 mod cmd_classify;
 
 mod cmd_tlv;
@@ -50,6 +62,8 @@ fn main() {
         "system" => cmd_system::run(),
         "provider" => cmd_provider::run(),
         "blocks" => cmd_blocks::run(),
+        "codec" => cmd_codec::run(),
+        "driver" => cmd_driver::run(),
         "mode" => println!("{}", if cfg!(debug_assertions) { "checked" } else { "wrapping" }),
         _ => {
             eprintln!("usage: tramp-harness <tlv|fee|mode>");
